@@ -262,15 +262,11 @@ pub fn build(s: &Sx) -> &'static dyn Aml {
 pub fn run(comp: u64, case: &Sx, out: &mut Vec<Ev>) {
     if comp == 40 {
         let t = build(case);
-        let mut v = Vec::new();
-        t.to_aml_bytes(&mut v);
-        out.push(Ev::Bytes(v));
+        out.push(crate::tcommon::image(t));
     } else {
         for c in case.list() {
             let t = build(c);
-            let mut v = Vec::new();
-            t.to_aml_bytes(&mut v);
-            out.push(Ev::Bytes(v));
+            out.push(crate::tcommon::image(t));
         }
     }
 }
